@@ -1,6 +1,7 @@
 import Driver.Proto
 import Gotree.Spec.C15
 import Gotree.Model.C15HeapEdits
+import Gotree.Model.C15Cmd
 
 namespace Gotree.Driver.C15
 open Gotree Gotree.Driver Gotree.C15
@@ -275,6 +276,11 @@ def handleCore (cli : Bool) (op : String) (f : List String) : Verdict :=
           if wf != "" then ⟨.oracle, tags, "malformed heap after RemoveSingleNodes: " ++ wf⟩
           else if !valid then ⟨.pass, "skip-dupnames" :: tags, ""⟩
           else if !(removeSingleOK t after) then ⟨.oracle, tags, "remove single nodes: tips, distances, or a single-child node left"⟩
+          else if !cli && !(t.usplits.length == after.usplits.length && t.usplits.all (after.usplits.contains ·)) then
+            -- Spec-level, no model (theorem removeSingle_usplits): every bipartition keeps its length (sum of the
+            -- fused branches) and its support (the larger of the two); not in the CLI tier (Newick cannot carry
+            -- the support of a branch above a named node or a tip)
+            ⟨.oracle, tags, "remove single nodes: the unrooted split map (length and support of each bipartition) changed"⟩
           else if !(derivedPartOK dd after true) then
             ⟨.tie, tags, "remove single nodes: tip ids / bitsets differ from the model's ReinitInternalIndexes: " ++ dd⟩
           else if !cli && (removeSingle t).usplits != after.usplits then
@@ -540,6 +546,78 @@ def handleCore (cli : Bool) (op : String) (f : List String) : Verdict :=
                       cmp (["glue-subtree", "matches-" ++ toString (nodesNamed t name).length] ++ tagIf e.isNone "nothing-printed") e "ok"
        | none => bad "C15.glue subtree fields")
     | _, _ => bad ("C15.glue: " ++ cmd)
+  | "repop", [gmode, gtextE, intendedS, treesS, outcome, outsS] =>
+    -- `gotree repopulate` as a whole (round 7): the group file as raw text, the three states of -g, several
+    -- trees in the input.  Oracle (no model): groups that are acceptable for EVERY tree of the input are
+    -- accepted for every tree, one tree is printed per input tree and each meets insertOK.
+    match unescape gtextE, (splitTerm "|" treesS).mapM T.undump, (splitTerm "|" outsS).mapM T.undump with
+    | some gtext, some trees, some outs =>
+      let ga : Option GroupArg := match gmode with
+        | "none" => some .absent | "missing" => some .missing | "file" => some (.file gtext) | _ => none
+      (match ga with
+       | none => bad "C15.repop mode"
+       | some ga =>
+        let m := cliRepopulateFile ga trees
+        let intended : Option (List (List String)) := if intendedS == "-" then none else parseStrLists intendedS
+        let read := readGroupFile gtext
+        let tags := ["repop", "g-" ++ gmode] ++ tagIf (trees.length ≥ 2) "multi-tree" ++
+          tagIf (gtext.toList.contains '\r') "crlf" ++
+          tagIf (gmode == "file" && gtext != "" && gtext.toList.getLast? != some '\n') "no-final-newline" ++
+          tagIf (read.contains [""]) "blank-line" ++ tagIf (read.any (·.length == 1)) "single-name-line" ++
+          tagIf (gmode == "file" && read.isEmpty) "empty-file" ++
+          tagIf (!m.2) "refused" ++ tagIf (!m.2 && !m.1.isEmpty) "refused-after-printing" ++
+          tagIf (m.2 && m.1 != trees) "effective" ++
+          tagIf (gmode == "file" && intended == some read) "parse=written"
+        let validFor (gs : List (List String)) (t : T) : Bool :=
+          t.uniqueTips && !(t.tipNames.contains "") && !(gs.flatten.contains "") && !(dupLabels t) &&
+          groupsAcceptable t gs
+        let tieAll (tags : List String) : Verdict :=
+          if outcome != (if m.2 then "ok" else "err") then
+            ⟨.tie, tags, "gotree repopulate: exit " ++ outcome ++ ", model says " ++ (if m.2 then "ok" else "err")⟩
+          else if outs.length != m.1.length then
+            ⟨.tie, tags, "gotree repopulate printed " ++ toString outs.length ++ " trees, the model " ++ toString m.1.length⟩
+          else if !((m.1.zip outs).all fun p => obsEq p.1 p.2) then
+            ⟨.tie, tags, "gotree repopulate printed another tree than the model"⟩
+          else ⟨.pass, tagIf ((m.1.zip outs).all fun p => zeroPpos p.1 == zeroPpos p.2) "exact" ++ tags, ""⟩
+        if panicked outcome then ⟨.oracle, tags, "gotree repopulate crashed: " ++ outcome⟩
+        else match intended with
+          | some gs =>
+            if gmode == "file" && trees.all (validFor gs) then
+              let tags := "valid" :: tags
+              if outcome != "ok" then
+                ⟨.oracle, tags, "gotree repopulate failed although every group has exactly one existing member in every tree of the input (" ++
+                  toString outs.length ++ " of " ++ toString trees.length ++ " trees printed)"⟩
+              else if outs.length != trees.length then
+                ⟨.oracle, tags, "gotree repopulate printed " ++ toString outs.length ++ " trees for " ++ toString trees.length⟩
+              else if !((trees.zip outs).all fun p => insertOK p.1 gs p.2) then
+                ⟨.oracle, tags, "gotree repopulate: tips, distances of pre-existing tips, or distance 0 to the model (some tree of the input)"⟩
+              else tieAll tags
+            else tieAll tags
+          | none => tieAll tags)
+    | _, _, _ => bad "C15.repop fields"
+  | "gluem", [cmd, argE, treesS, outcome, outsS] =>
+    -- `collapse single` / `subtree` on an input of several trees
+    match unescape argE, (splitTerm "|" treesS).mapM T.undump, (splitTerm "|" outsS).mapM T.undump with
+    | some arg, some trees, some outs =>
+      let expect : Option (List T) := match cmd with
+        | "collapsesingle" => some (cliCollapseSingleAll trees)
+        | "subtree" => some (cliSubtreeAll trees arg)
+        | _ => none
+      (match expect with
+       | none => bad ("C15.gluem: " ++ cmd)
+       | some m =>
+        let tags := ["gluem-" ++ cmd] ++ tagIf (trees.length ≥ 2) "multi-tree" ++
+          tagIf (m.length < trees.length) "some-print-nothing" ++ tagIf (m.length > 0 && m != trees) "effective"
+        if panicked outcome then ⟨.oracle, tags, "gotree " ++ cmd ++ " crashed: " ++ outcome⟩
+        else if cmd == "collapsesingle" && trees.all (fun t => t.uniqueTips && lengthsOK t) &&
+            (outcome != "ok" || outs.length != trees.length || !((trees.zip outs).all fun p => removeSingleOK p.1 p.2)) then
+          ⟨.oracle, tags, "gotree collapse single on several trees: a tree is missing, or tips, distances, or a single-child node left"⟩
+        else if outcome != "ok" then ⟨.tie, tags, "gotree " ++ cmd ++ ": exit " ++ outcome ++ ", model says ok"⟩
+        else if outs.length != m.length then
+          ⟨.tie, tags, "gotree " ++ cmd ++ " printed " ++ toString outs.length ++ " trees, the model " ++ toString m.length⟩
+        else if !((m.zip outs).all fun p => obsEq p.1 p.2) then ⟨.tie, tags, "gotree " ++ cmd ++ " printed another tree than the model"⟩
+        else ⟨.pass, tagIf ((m.zip outs).all fun p => zeroPpos p.1 == zeroPpos p.2) "exact" ++ tags, ""⟩)
+    | _, _, _ => bad "C15.gluem fields"
   | _, _ => bad ("C15: unknown op " ++ op)
 
 /-- CLI-tier cases (DESIGN §4.3) carry one more field, `cli`: same oracle, same tie -/
